@@ -1076,13 +1076,7 @@ theorem C05_multisig_end_to_end (w : Wrap) (coin : Coin) (tx : Tx) (us : List (O
       obtain ⟨k, hk⟩ := getElem?_of_lt (mem_signedList.mp hi).1
       exact (own_facts HK hsg hht hk).1
     apply state_accept (realChk coin tx us idx) w m keys sg ph sgn flags txc ok hm1 hmn hn (sizesOk_of HK hsg hht hph) hcard
-    · intro i hi
-      have hlt : i < keys.reverse.length := by
-        have := hsub i hi
-        unfold inTOf at this
-        cases hk : keys.reverse[i]? with
-        | none => rw [hk] at this; cases this
-        | some k => exact lt_of_getElem? hk
+    · intro i hlt _
       obtain ⟨k, hk⟩ := getElem?_of_lt hlt
       exact C05_sig_passes_encoding_checks (own_facts HK hsg hht hk).1 flags hstd
     · exact keysEncoding_of HK w flags hcomp
@@ -1091,6 +1085,191 @@ theorem C05_multisig_end_to_end (w : Wrap) (coin : Coin) (tx : Tx) (us : List (O
       apply hchk
       rw [hcode _ hcan, sv_witness]
       exact hz
+
+/-! ### pass by pass -/
+
+/-- unforgeability-style hypothesis: the signature made with the secret of listed key `i` does not verify for another listed
+key `j` (for given `(r, s, z)` at most the two keys recoverable from them verify at all) -/
+def NoCross (K : List Bytes) (d x y : Nat → Int) (z : Int) : Prop :=
+  ∀ i j, i < K.length → j < K.length → i ≠ j → ∀ r s, secp256k1Crypto.sign (d i) z = .ok (r, s) →
+    secp256k1Crypto.verify (some (x j, y j)) z r (lowS secp256k1Crypto.order s) = .ok false
+
+/-- unforgeability-style hypothesis: the placeholder `(r, s) = (n − 1, (n − 1)/2)` verifies for no key and digest -/
+def PlaceholderUnverifiable : Prop :=
+  ∀ Q z, secp256k1Crypto.verify Q z ((secp256k1N - 1 : Nat) : Int) (((secp256k1N - 1) / 2 : Nat) : Int) = .ok false
+
+theorem findKey_unverifiable (C : Crypto) (digest : Digest) (r s : Int) (t : Nat)
+    (hunf : ∀ Q z, C.verify Q z r s = .ok false) : ∀ (keys : List Bytes) (i : Nat), findKey C digest r s t keys i = .ok none := by
+  intro keys
+  induction keys with
+  | nil => intro i; rfl
+  | cons k r' ih =>
+    intro i
+    simp only [findKey]
+    split
+    · rfl
+    · split
+      · rfl
+      · rw [hunf]; exact ih (i + 1)
+
+theorem placeholder_dud (hunf : PlaceholderUnverifiable) (dig : Digest) (K : List Bytes) :
+    Slot.ok secp256k1Crypto dig K (.dud Gen.Sign.defaultPlaceholder) :=
+  ⟨secp256k1N - 1, (secp256k1N - 1) / 2, 1, placeholder_parses, findKey_unverifiable _ _ _ _ _ hunf K 0⟩
+
+theorem placeholder_lax : Gen.Sign.defaultPlaceholder.getLast? = some 1 ∧
+    laxDerParse Gen.Sign.defaultPlaceholder.dropLast = some (secp256k1N - 1, (secp256k1N - 1) / 2) ∧
+    Gen.Sign.defaultPlaceholder.length = 72 := by
+  decide +kernel
+
+/-- the real `CheckSig` rejects the placeholder for every key, script code and signature version -/
+theorem realChk_placeholder (hunf : PlaceholderUnverifiable) (coin : Coin) (tx : Tx) (us : List (Option TxOut)) (idx : Nat)
+    (k code : Bytes) (sv : SigVersion) : realChk coin tx us idx Gen.Sign.defaultPlaceholder k code sv = false := by
+  unfold realChk ecdsaChk
+  rw [placeholder_lax.1, placeholder_lax.2.1]
+  cases secp256k1Crypto.secToPair k with
+  | none => rfl
+  | some Q =>
+    simp only []
+    cases modelSighash coin tx us idx (sv == SigVersion.witnessV0) code (1 : UInt8).toNat with
+    | none => rfl
+    | some z' => simp only []; rw [hunf]
+
+theorem sigdecodeDerLax_not30 (b0 : UInt8) (l : Bytes) (h0 : b0 ≠ 0x30) : sigdecodeDerLax (b0 :: l) = none := by
+  unfold sigdecodeDerLax
+  split
+  · rename_i heq
+    injection heq with h1 _
+    exact absurd h1 h0
+  · rfl
+
+/-- a multisig script is not taken for a signature by `parse_signature_blob` -/
+theorem parseSignatureBlob_multisigScriptN (m : Nat) (keys : List Bytes) (hm : m ≤ 20) :
+    parseSignatureBlob (multisigScriptN m keys) = none := by
+  have key : ∀ (b0 : UInt8) (t : Bytes), b0 ≠ 0x30 → t ≠ [] → parseSignatureBlob (b0 :: t) = none := by
+    intro b0 t h0 ht
+    have hd : (b0 :: t).dropLast = b0 :: t.dropLast := by
+      cases t with
+      | nil => exact absurd rfl ht
+      | cons a r => rfl
+    unfold parseSignatureBlob
+    rw [hd, sigdecodeDerLax_not30 b0 _ h0]
+    cases (b0 :: t).getLast? <;> rfl
+  by_cases h16 : m ≤ 16
+  · have tm : (UInt8.ofNat (0x50 + m)).toNat = 0x50 + m := toNat_ofNat_lt (by omega)
+    have e : multisigScriptN m keys = UInt8.ofNat (0x50 + m) :: (pushesOf keys ++ (countPush keys.length ++ [0xae])) := by
+      simp [multisigScriptN, countPush, h16]
+    rw [e]
+    apply key
+    · intro h; have := congrArg UInt8.toNat h; rw [tm] at this; simp at this; omega
+    · simp
+  · have e : multisigScriptN m keys = 0x01 :: (UInt8.ofNat m :: (pushesOf keys ++ (countPush keys.length ++ [0xae]))) := by
+      simp [multisigScriptN, countPush, h16]
+    rw [e]
+    exact key _ _ (by decide) (by simp)
+
+theorem keyFacts_of {K : List Bytes} {d x y : Nat → Int} {comp : Nat → Bool} {sg : Nat → Bytes} {z : Int} {ht : Nat}
+    {dig : Digest} (HK : HonestKeys K d x y comp) (hsg : SignsWith K d z ht sg) (hht : ht ≤ 255) (hz : dig ht = some z)
+    (hcross : NoCross K d x y z) : KeyFacts secp256k1Crypto dig ht z K sg := by
+  refine ⟨hz, ?_⟩
+  intro i hi
+  obtain ⟨k, hk⟩ := getElem?_of_lt hi
+  obtain ⟨_, _, r, s, a1, a2, l1, l2, hsign, hbin, hver, _⟩ := own_facts HK hsg hht hk
+  have hN := secp256k1N_lt
+  have e1 : ((r.toNat : Nat) : Int) = r := by omega
+  have e2 : (((lowS secp256k1N s).toNat : Nat) : Int) = lowS secp256k1N s := by omega
+  refine ⟨r.toNat, (lowS secp256k1N s).toNat, ?_, ?_⟩
+  · apply parseSignatureBlob_binarySignature (by omega) (by omega) (by omega) (by omega)
+    rw [e1, e2]; exact hbin
+  · intro j kj hkj
+    obtain ⟨_, hdec, _⟩ := own_facts HK hsg hht hkj
+    refine ⟨some (x j, y j), hdec, ?_⟩
+    rw [e1, e2]
+    by_cases hij : i = j
+    · subst hij; simp [hver]
+    · have := hcross i j hi (lt_of_getElem? hkj) hij r s hsign
+      rw [k1_order] at this
+      simp [this, hij]
+
+theorem stateSlots_render' (n m : Nat) (sg : Nat → Bytes) (ph : Bytes) (sgn : Nat → Bool) (extra : List Bytes) :
+    (stateSlots n m ph sgn extra).map (·.render sg) = stateSolved n m sg ph sgn ++ extra := by
+  rw [stateSlots_render, stateSolved_eq]
+
+/-- **Partial signing, pass by pass, on the model** (`_partial`: the two unforgeability-style hypotheses `hcross`, `hunf` are
+extra — they cannot be proved, only not refuted).  Any non-empty sequence of signing passes over a fresh m-of-n input, each with
+its own lookup holding secrets of listed keys, each reading the blobs the pass before left (the solved items, then the redeem /
+witness script): the model ends in the state `runSets …` — the dummy, `m − j` placeholders, and the signatures of the `j` keys
+that signed, in key order — where `j = min m (number of distinct listed keys supplied over all passes)`; and the consensus
+specification accepts the spend built from it **exactly when** `m` distinct listed keys have been supplied, whatever the
+wrapper, with `CheckSig` = ECDSA-verify of the C04 digest.  With fewer, placeholders remain and it is rejected. -/
+theorem C05_partial_passes_partial (w : Wrap) (coin : Coin) (tx : Tx) (us : List (Option TxOut)) (idx : Nat)
+    (m : Nat) (keys : List Bytes) (d x y : Nat → Int) (comp : Nat → Bool) (sg : Nat → Bytes) (z : Int) (ht : Nat)
+    (flags : Flags) (txc : TxCtx) (ls : List Lookup) (hne : ls ≠ [])
+    (hm1 : 1 ≤ m) (hmn : m ≤ keys.length) (hn : keys.length ≤ 20)
+    (HK : HonestKeys keys.reverse d x y comp)
+    (hz : modelSighash coin tx us idx w.witness (multisigScriptN m keys) ht = some z)
+    (hsg : SignsWith keys.reverse d z ht sg) (hl : ∀ l ∈ ls, LookupFor keys.reverse d l)
+    (hcross : NoCross keys.reverse d x y z) (hunf : PlaceholderUnverifiable)
+    (hht : ht ≤ 255) (hstd : standardHashType ht ∨ flags.strictenc = false)
+    (hcomp : w.witness = true → ∀ i, comp i = true)
+    (ok : w.Ok (multisigScriptN m keys) flags)
+    (hcode : ∀ sigs, (∀ s ∈ sigs, Canonical ht s) → CodeIs w (multisigScriptN m keys) flags txc sigs) :
+    runPasses secp256k1Crypto (modelSighash coin tx us idx w.witness (multisigScriptN m keys)) ht Gen.Sign.defaultPlaceholder m
+        keys (w.extra (multisigScriptN m keys)) ls [] =
+      .ok (stateSolved keys.reverse.length m sg Gen.Sign.defaultPlaceholder
+        (runSets keys.reverse.length m (ls.map (fun l => inTOf l keys.reverse)) (fun _ => false)) ++
+          w.extra (multisigScriptN m keys)) ∧
+    card keys.reverse.length (runSets keys.reverse.length m (ls.map (fun l => inTOf l keys.reverse)) (fun _ => false)) =
+      min m (card keys.reverse.length (unionSets (ls.map (fun l => inTOf l keys.reverse)) (fun _ => false))) ∧
+    (verifyScript (realChk coin tx us idx)
+        (w.scriptSig (multisigScriptN m keys) (stateSolved keys.reverse.length m sg Gen.Sign.defaultPlaceholder
+          (runSets keys.reverse.length m (ls.map (fun l => inTOf l keys.reverse)) (fun _ => false))))
+        (w.spk (multisigScriptN m keys))
+        (w.wit (multisigScriptN m keys) (stateSolved keys.reverse.length m sg Gen.Sign.defaultPlaceholder
+          (runSets keys.reverse.length m (ls.map (fun l => inTOf l keys.reverse)) (fun _ => false)))) flags txc = none
+      ↔ m ≤ card keys.reverse.length (unionSets (ls.map (fun l => inTOf l keys.reverse)) (fun _ => false))) := by
+  have F := keyFacts_of HK hsg hht hz hcross
+  have h0 : card keys.reverse.length (fun _ => false) ≤ m := by rw [card_eq_countP]; simp
+  have hcardeq := runSets_card keys.reverse.length m (ls.map (fun l => inTOf l keys.reverse)) (fun _ => false) h0
+  have hph : 2 ≤ Gen.Sign.defaultPlaceholder.length ∧ Gen.Sign.defaultPlaceholder.length ≤ 75 := by
+    rw [placeholder_lax.2.2]; omega
+  have hextra : ∀ b ∈ w.extra (multisigScriptN m keys), parseSignatureBlob b = none := by
+    intro b hb
+    have : b = multisigScriptN m keys := by
+      cases w <;> simp [Wrap.extra] at hb <;> exact hb
+    rw [this]; exact parseSignatureBlob_multisigScriptN m keys (by omega)
+  refine ⟨?_, hcardeq, ?_⟩
+  · cases ls with
+    | nil => exact absurd rfl hne
+    | cons l ls' =>
+      rw [runPasses_fresh keys F m _ _ (placeholder_dud hunf _ _) hextra l ls'
+        (fun l' hl' => lookupHonest_of HK hsg (hl l' hl')), stateSlots_render']
+  · generalize hsgn : runSets keys.reverse.length m (ls.map (fun l => inTOf l keys.reverse)) (fun _ => false) = sgn at *
+    constructor
+    · intro hv
+      apply Classical.byContradiction
+      intro hlt
+      have hfew : card keys.reverse.length sgn < m := by omega
+      exact state_reject (realChk coin tx us idx) w m keys sg _ sgn flags txc ok hm1 hmn hn (sizesOk_of HK hsg hht hph) hfew
+        (fun k _ => realChk_placeholder hunf coin tx us idx k _ _) hv
+    · intro hge
+      have hcard : card keys.reverse.length sgn = m := by omega
+      have hsigs := stateSigs_full keys.reverse.length m sg Gen.Sign.defaultPlaceholder sgn hcard
+      have hcan : ∀ s ∈ stateSigs keys.reverse.length m sg Gen.Sign.defaultPlaceholder sgn, Canonical ht s := by
+        intro s hs
+        rw [hsigs] at hs
+        obtain ⟨i, hi, rfl⟩ := List.mem_map.mp hs
+        obtain ⟨k, hk⟩ := getElem?_of_lt (mem_signedList.mp hi).1
+        exact (own_facts HK hsg hht hk).1
+      apply state_accept (realChk coin tx us idx) w m keys sg _ sgn flags txc ok hm1 hmn hn (sizesOk_of HK hsg hht hph) hcard
+      · intro i hlt _
+        obtain ⟨k, hk⟩ := getElem?_of_lt hlt
+        exact C05_sig_passes_encoding_checks (own_facts HK hsg hht hk).1 flags hstd
+      · exact keysEncoding_of HK w flags hcomp
+      · intro i k hk _
+        obtain ⟨_, _, r, s, _, _, _, _, _, _, _, hchk⟩ := own_facts HK hsg hht hk
+        apply hchk
+        rw [hcode _ hcan, sv_witness]
+        exact hz
 
 section digests
 open Pycoin.Sighash
